@@ -9,7 +9,7 @@ import boards_common as bc
 
 RULE = ("boards: every board with <= 3 tiles (quick) / <= 4 tiles (thorough) over arrows {0,1,2,3} x loose {0,1} x "
         "rewards {0,3}, break probabilities cycling through {0.1,0.5,0.29}^3; random boards from the real gen_rnd_board "
-        "up to 3x3 / 5x5 with probabilities also drawn from (0,1); larger boards (8x8, 1x40, 40x1; thorough also "
+        "up to 3x3 / 5x5 with probabilities also drawn from (0,1); larger boards (8x8, 1x40, 40x1, 9x10, 1x90, one seed-drawn board of 48..168 tiles; thorough also "
         "20x20, 12x7) through the implementation and the Python predicates only; command-line runs over sizes "
         "1x1, 1xk, kx1, kxk x probabilities 0.01/0.5/0.99 x force-down on/off, and the manual entry point. "
         "non-trivial = board with >= 2 tiles; distinct by (board, probabilities). In the thorough tier one in %d of the "
